@@ -809,7 +809,9 @@ def lookalike_case(ctx: Ctx, cls: str, kw, kw2, flavour: str, rng, origin: str, 
                 key = (KEY_ASNTM_EAFP if cls == "MNTM" and name == "MNTM.read_input_as_ntm"
                        and flavour in ("defaultdict", "defaultdict-outer", "missing-inserts") else None)
                 ctx.prop_fail(f"{name} ({out}) changed the definition of its {who} (allow_mutable_automata=True, "
-                              f"{cls} definition handed over as {flavour}): rows / entries added: {added!r:.200}", rp, key)
+                              f"{cls} definition handed over as {flavour}): "
+                              + (f"rows / entries added: {added!r:.200}" if added and added != "?" else
+                                 "the content of existing rows / sets changed"), rp, key)
                 # go on from the changed state (every later call is compared with what it found)
                 if who == "operand":
                     built = now
